@@ -31,7 +31,7 @@ THEOREMS = {
     "C10": ["lifecycle_status", "lifecycle_same_event", "post_status", "status_edges", "status_kind_step", "status_timeline_step",
             "status_timeline", "shock_in_force", "pending_invisible", "prefix_event_free"],
     "C11": ["no_internal_error", "ids_lifecycle", "ids_receive", "demand_own_block", "other_blocks_empty", "credit_own_block",
-            "finished_no_more", "aggregates_perm", "rebuild_total_perm", "perm_observables_step_partial",
+            "finished_no_more", "aggregates_perm", "rebuild_total_perm", "perm_observables_step_partial", "perm_invariant_run",
             "Layout.writer_reader_agree", "Layout.blocks_inside", "Layout.blocks_disjoint", "Layout.blocks_cover", "Layout.blocks_partition"],
     "C20": ["psi_above_one_rejected", "schedule_outside_horizon_rejected", "excess_capital_rejected", "negative_capacity_rejected",
             "params_ok", "init_econ_ok", "tracker_init_ok", "inv_step", "step_quantities_nonneg", "no_silent_failure", "inv_reach"],
@@ -62,7 +62,7 @@ MODULES["C05"] = ["Boario.Properties.C05", "Boario.Properties.Reach"]
 MODULES["C07"] = ["Boario.Properties.C07", "Boario.Properties.Reach"]
 MODULES["C08"] = ["Boario.Properties.C08", "Boario.Properties.Reach"]
 MODULES["C06"] = ["Boario.Properties.C06", "Boario.Properties.Reach"]
-MODULES["C11"] = ["Boario.Properties.C11", "Boario.Properties.LayoutThm"]
+MODULES["C11"] = ["Boario.Properties.C11", "Boario.Properties.C11Run", "Boario.Properties.LayoutThm"]
 MODULES["C04"] = ["Boario.Properties.C04", "Boario.Properties.LayoutThm"]
 
 # scenario streams: (stream name, number of scenarios quick, thorough)
@@ -166,8 +166,8 @@ CLAIMS = {
             "note": _NOTE, "technique": "Lean 4 theorems + per-step correspondence of EventTracker.recover (concave: raw curve values taken from the code, rounding modelled)"},
     "C10": {"text": "Theorems lifecycle_status, status_edges, status_kind_step, status_timeline_step and status_timeline (induction over the run: pending / happening / later stage exactly on schedule), shock_in_force, pending_invisible, prefix_event_free (the run with events equals the run without before the earliest occurrence), for step length 1. The life-cycle phase and ledgers compared per step; prefix checked bitwise on paired runs.",
             "note": _NOTE, "technique": "Lean 4 theorems (induction over steps, simulation of the event-free run) + per-step correspondence of the event phases + paired runs"},
-    "C11": {"text": "Theorems no_internal_error (from the well-formedness invariant, preserved by every step: C20's inv_step), ids_lifecycle / ids_receive (block ids of rebuilding events stay distinct and in range, also when events finish), demand_own_block, other_blocks_empty, credit_own_block, finished_no_more, aggregates_perm, rebuild_total_perm, and the Layout theorems (writer and reader address the same columns; blocks disjoint and covering). Order independence is proved for one step of what the economy sees (perm_observables_step_partial); the run-level statement is checked on paired runs (permuted event lists, three ways of adding events), not proved.",
-            "note": _NOTE, "technique": "Lean 4 theorems (invariant + permutation invariance, run-level order independence partial) + per-step correspondence of the whole event layer + paired runs"},
+    "C11": {"text": "Theorems no_internal_error (from the well-formedness invariant, preserved by every step: C20's inv_step), ids_lifecycle / ids_receive (block ids of rebuilding events stay distinct and in range, also when events finish), demand_own_block, other_blocks_empty, credit_own_block, finished_no_more, aggregates_perm, rebuild_total_perm, the Layout theorems (writer and reader address the same columns; blocks disjoint and covering), and perm_invariant_run: two simulations that differ only by the order of their event list have, after any number of steps, the same observable state (everything the records expose, and the same events with the same ledgers, block ids aside) and one run succeeds iff the other does - by a simulation relation preserved by every phase, induction over the run. 'Beyond rounding' for the implementation and the three ways of adding events are checked on paired runs (shuffled lists at 1e-9, adding modes bitwise).",
+            "note": _NOTE, "technique": "Lean 4 theorems (invariant by induction; simulation relation up to block renaming for order independence) + per-step correspondence of the whole event layer + paired runs"},
     "C20": {"text": "Theorems: the documented rejections that are decision logic of the model (psi above 1, schedule outside the horizon, capital loss above the stock, negative capacity); params_ok / init_econ_ok / tracker_init_ok (constructors establish well-formedness); inv_step and inv_reach (every physical quantity stays non-negative along every run); no_silent_failure (a step ends in ok, the crashed flag or a documented rejection, never another exception). Partial: float overflow is outside the model; the validators that live in pandas/pymrio plumbing (incomplete table, unknown labels, wrong types, record names) are exercised by a malformed-input stream against the real constructors, not modelled.",
             "note": _NOTE, "technique": "Lean 4 theorems (invariant by induction) + per-step correspondence + malformed-input stream on the real validators + finiteness/sign oracle on every state"},
     "C01": {"text": "Theorems init_at_equilibrium, equilibrium_step, equilibrium_forever (induction over steps), equilibrium_loop: for every balanced non-negative table with non-negative value added, of any size and sparsity (zero-output industries, unused inputs), and every accepted configuration, the event-free run reproduces the equilibrium exactly in the rational model and never rejects, crashes or fails; equilibrium_step_needs_capital_nonneg shows the capital hypothesis is necessary. mkParams and all six phases are compared with the code on event-free runs.",
